@@ -424,6 +424,69 @@ def rule_override(ctx, rep, by_loc=None, RULE='D-OVERRIDE'):
     rep.floor(RULE, n, 1)
 
 
+def _entry_via_context_manager(model, cg, fi, fws, readers):
+    """The entry's rewrite moved into __enter__ of a context manager: `loc = self.X` first in __enter__, `self.X = p` in
+    __init__, and every construction `with K(<first parameter of F>)` stands in F before any call that reaches a reader.
+    None if the writer is not of that shape; else (ok, why, entry)."""
+    if fi.cls is None or fi.name != '__enter__':
+        return None
+    v = fws[0].value
+    first = stmt_of(fws[0].node)
+    if not (first in fi.node.body and fi.node.body.index(first) == 0 and isinstance(v, ast.Attribute)
+            and isinstance(v.value, ast.Name) and fi.params() and v.value.id == fi.params()[0]):
+        return None
+    init = fi.cls.methods.get('__init__')
+    if init is None:
+        return None
+    src = None
+    for n in walk_function(init.node):
+        if isinstance(n, ast.Assign) and len(n.targets) == 1 and isinstance(n.targets[0], ast.Attribute) and n.targets[0].attr == v.attr \
+                and isinstance(n.targets[0].value, ast.Name) and n.targets[0].value.id == init.params()[0] and isinstance(n.value, ast.Name) \
+                and n.value.id in init.params()[1:]:
+            src = init.params().index(n.value.id) - 1
+    if src is None:
+        return None
+    sites = []
+    for u in model.units.values():
+        for n in ast.walk(u.tree):
+            if isinstance(n, ast.Call) and isinstance(n.func, (ast.Name, ast.Attribute)) and model.resolve_expr(u.modname, n.func) is fi.cls:
+                sites.append((u, n))
+    if not sites:
+        return None
+    entries = []
+    for u, call in sites:
+        par = getattr(call, '_parent', None)
+        if not (isinstance(par, ast.withitem) and par.context_expr is call):
+            return False, 'it is constructed outside a with statement (line %d)' % call.lineno, u.modname
+        f = None
+        for g in model.functions.values():
+            if g.modname == u.modname and any(x is call for x in ast.walk(g.node)):
+                if f is None or any(x is g.node for x in ast.walk(f.node)):
+                    f = g
+        if f is None or not f.params():
+            return False, 'the with statement is not inside a function with a parameter', u.modname
+        arg = call.args[src] if src < len(call.args) else None
+        want = f.params()[0] if f.kind not in ('staticmethod',) else None
+        if not (isinstance(arg, ast.Name) and arg.id == want):
+            return False, 'the object made current is not the first parameter of %s' % f.short, f.short
+        w = par
+        while getattr(w, '_parent', None) is not None and not isinstance(w, ast.With):
+            w = w._parent
+        body = f.node.body
+        if w not in body:
+            return False, 'the with statement is nested inside other statements of %s' % f.short, f.short
+        for st in body[:body.index(w)]:
+            for c in ast.walk(st):
+                if isinstance(c, ast.Call):
+                    site = [s_ for s_ in cg.sites if s_.node is c]
+                    reach = cg.reachable(site[0].callees) if site else {}
+                    if readers & set(reach):
+                        return False, '%s can read the location before the with statement' % ast.unparse(c), f.short
+        entries.append(f.short)
+    return True, 'set first in __enter__ to what __init__ was given; constructed as `with %s(<first parameter>)` before any reader' \
+        % fi.cls.name, ', '.join(sorted(set(entries)))
+
+
 def rule_entry_rewrite(ctx, rep, by_loc):
     model = ctx.model
     cg = ctx.callgraph()
@@ -451,6 +514,18 @@ def rule_entry_rewrite(ctx, rep, by_loc):
         for q in sorted(writers):
             fi = model.functions[q]
             fws = sorted([w for w in ws if w.fi is fi], key=lambda w: w.node.lineno)
+            if all(isinstance(w.value, ast.Constant) and w.value.value is None for w in fws) and len(writers) > 1:
+                # a writer that only clears the location carries nothing from one use to the next
+                rep.obligation('D-ENTRY-REWRITE', True, {'location': l, 'writer': fi.short, 'writes': 'None only'})
+                continue
+            moved = _entry_via_context_manager(model, cg, fi, fws, readers)
+            if moved is not None:
+                ok, why, entry = moved
+                rep.obligation('D-ENTRY-REWRITE', ok, {'location': l, 'entry': entry, 'through': fi.short, 'how': why})
+                if not ok:
+                    rep.find('D-ENTRY-REWRITE', fi.short, l, '%s writes %s on behalf of %s: %s' % (fi.short, l, entry, why),
+                             loc(model.unit_of(fi), fws[0].node))
+                continue
             first = stmt_of(fws[0].node)
             # every statement before the first write must not reach a reader
             body = fi.node.body
